@@ -23,6 +23,9 @@ def check(run):
             o.rule = 'C13-ESC'
     run.floors = [(('C13-ESC' if r == 'C03-ESC' else r), c, m) for r, c, m in run.floors]
     bracket(run, p, I, flags, 'C13')
+    from .. import ief, triage
+    ief.run_ief(run, 'C13', [p.fn(RX + 'extract'), p.fn(RX + 'pdextract'), p.method('Extractor', '__init__')], triage=triage.IEF, selfattr=True)
+    run.floor('C13-IEF', run.units['ief_functions_checked'], 60)
     klass(run, p, I, flags)
     run.rules['C13-CLASS'] = run.rules.pop('C03-CLASS') + ' (an expression built from a class that does not contain its characters matches none of its examples)'
     for o in run.obs:
